@@ -394,6 +394,18 @@ class Ctx:
     def count(self, key, n=1):
         self.hist[key] = self.hist.get(key, 0) + n
 
+    def crumb(self, case):
+        """Announce the case about to be run through native/real code that could kill the interpreter
+        (HDF5, scipy sparse, struct). If the process dies, the parent (harness/run.py) reports a VIOLATION
+        whose replay is this case."""
+        path = os.environ.get("VERIF_CRUMB")
+        if path:
+            try:
+                with open(path, "w") as f:
+                    json.dump({"evaluations": self.evaluations, "case": case}, f, default=str)
+            except OSError:
+                pass
+
     def case(self, canon, nontrivial=True, sample=None):
         """Record one evaluated case. canon: hashable canonical form (for distinct counting)."""
         self.evaluations += 1
@@ -532,6 +544,34 @@ def decide(ctx: Ctx, module):
     return violations
 
 
+def report_native_crash(prop, tier, seed, rc, crumb_path):
+    """The child process running the check died abnormally (signal / abort inside native code)."""
+    ctx = Ctx(prop, tier, seed)
+    crumb, audit_res = {}, None
+    try:
+        crumb = json.load(open(crumb_path))
+    except Exception:
+        pass
+    try:
+        audit_res = json.load(open(crumb_path + ".audit"))
+        audit_res["theorems"] = [tuple(x) for x in audit_res["theorems"]]
+    except Exception:
+        pass
+    ctx.audit_result = audit_res
+    ctx.evaluations = int(crumb.get("evaluations", 0)) + 1
+    ctx.distinct = {"crashing-case", "cases-before-the-crash"}
+    ctx.rule = "run ended by an abnormal interpreter death; counts are those announced before the crash"
+    ctx.samples = [crumb.get("case", "(no breadcrumb)")]
+    path = write_replay(ctx, {"property": prop, "kind": "failing-input", "seed": seed, "tier": tier,
+                              "key": "native-crash", "case": crumb.get("case"),
+                              "clause": "the implementation must not abort the interpreter; the check process died "
+                                        f"with status {rc} while running this case on the real code",
+                              "observed": f"exit status {rc}", "expected": "a value or a Python exception"})
+    ctx.say(f"VIOLATION property={prop} replay={path}")
+    write_evidence(ctx, 1)
+    return 1
+
+
 def standard_main(prop, module, argv):
     """Entry used by ./check: `check Cxx quick|thorough` or `check Cxx --replay file`."""
     seed = int(os.environ.get("VERIF_SEED", "0") or 0)
@@ -599,6 +639,9 @@ def run_check(prop, module, tier, seed):
         if ctx.audit_result["bad"] or ctx.audit_result["scan"]:
             ctx.say("axiom audit:", ctx.audit_result["bad"], ctx.audit_result["scan"])
             raise Infra("axiom audit failed: a proof is not a proof")
+        if os.environ.get("VERIF_CRUMB"):
+            with open(os.environ["VERIF_CRUMB"] + ".audit", "w") as f:
+                json.dump(ctx.audit_result, f)
         if tier == "thorough" and os.environ.get("VERIF_NO_LEANCHECKER") != "1":
             okc, outc = leanchecker(ctx.prop_modules)
             ctx.extra["leanchecker"] = "ok" if okc else outc
